@@ -910,6 +910,64 @@ def contextual_lookup_records_at_one_position_closure(tier, rnd):
     return r
 
 
+@check("C07")
+def leaf_lookup_shared_by_several_contexts_closure(tier, rnd):
+    """A ligature (or multiple / single) lookup reached ONLY through contextual lookups, from two
+    or three of them, while plain substitutions between those contextual lookups produce glyphs
+    that the shared lookup needs (a ligature component, a context glyph): the closure has to apply
+    the shared lookup again for the same position glyphs once the glyph set has grown.  Subset to
+    random character sets, compare HarfBuzz shaping of all texts up to length 3."""
+    from fontTools.feaLib.builder import addOpenTypeFeaturesFromString
+    _quiet()
+    r = Result("feature-file pattern: shared lookup {A B1 -> L1; A B2 -> L2; [A -> M1 M2]} called by contexts C1 (A' B1'), C2 (A' B2'), optionally C3 "
+               "(X' lookup SHARED); singles S (X -> B2), T (Y -> A) between them; all orders of the lookups x random roles x requests; "
+               "distinct = (lookup order, shared kind, request size)")
+    enc = list("abcdefgh")
+    extra = ["x%d" % i for i in range(10)]
+    glyphs = [".notdef"] + enc + extra
+    import itertools
+    orders = list(itertools.permutations(("C1", "S", "C2", "T")))
+    n = 48 if tier == "quick" else 480
+    for k in range(n):
+        A, B1, B2, X, Y = rnd.sample(enc, 5)
+        L1, L2, M1, M2 = rnd.sample(extra, 4)
+        kind = "ligature"
+        order = orders[k % len(orders)]
+        body = {"C1": "lookup C1 { sub %s' lookup SHARED %s'; } C1;" % (A, B1),
+                "C2": "lookup C2 { sub %s' lookup SHARED %s'; } C2;" % (A, B2),
+                "S": "lookup S { sub %s by %s; } S;" % (X, B2),
+                "T": "lookup T { sub %s by %s; } T;" % (Y, A)}
+        fea = "languagesystem DFLT dflt;\nlookup SHARED {\n sub %s %s by %s;\n sub %s %s by %s;\n} SHARED;\n" % (A, B1, L1, A, B2, L2)
+        fea += "feature test {\n" + "\n".join(body[o] for o in order) + "\n} test;\n"
+        font = _build_font(glyphs, {ord(c): c for c in enc})
+        try:
+            addOpenTypeFeaturesFromString(font, fea)
+            data = _save(font)
+        except Exception as e:
+            r.case(("generator", type(e).__name__))
+            continue
+        a = _HB(data, glyphs)
+        for req in (sorted({A, B1, X}), sorted({A, X, Y}), sorted({A, B1, B2, X, Y}), sorted(rnd.sample(enc, 4))):
+            key = (order, kind, len(req))
+            try:
+                sub, sorder, _ = _subset(data, unicodes=[ord(c) for c in req], layout_features=["*"], glyph_names=True, notdef_outline=True)
+            except Exception as e:
+                r.case(key)
+                r.fail("subsetting pattern font #%d to %s raised %s: %s" % (k, req, type(e).__name__, str(e)[:120]))
+                continue
+            b = _HB(sub, sorder)
+            bad = 0
+            for t in ("".join(t) for t in _all_texts(req, 3)):
+                r.case(key)
+                x, y = a.text(t, {"test": True}, None, None, "ltr"), b.text(t, {"test": True}, None, None, "ltr")
+                if x != y and not bad:
+                    bad = 1
+                    r.fail("pattern font #%d (lookup order %s; %s), request %s: %r shapes to %s in the subset (glyphs %s), %s in the original"
+                           % (k, " ".join(order), fea.replace("\n", " "), req, t, [g[0] for g in y], sorder, [g[0] for g in x]))
+    r.sample({"fea": fea})
+    return r
+
+
 def _norm_to_user(axis, n):
     t, lo, d, hi = axis
     return d + n * (hi - d) if n >= 0 else d + n * (d - lo)
